@@ -121,6 +121,10 @@ type advReader struct {
 	served [][]byte
 	saved  []savedTile
 	only   map[[3]int64]bool // if non-nil, only these tiles exist (publisher test)
+	// which occurrences of a tile are corrupted when it is asked for more than once: "" all, "first", "later"
+	occMode string
+	seen    map[[3]int64]int
+	dups    int
 }
 
 type savedTile struct {
@@ -145,8 +149,15 @@ func (r *advReader) ReadTiles(tiles []tlog.Tile) ([][]byte, error) {
 		if d == nil {
 			return nil, fmt.Errorf("no such tile %v in a tree of %d records", t.Path(), r.tr.n)
 		}
+		if r.seen == nil {
+			r.seen = map[[3]int64]int{}
+		}
+		r.seen[key]++
+		if r.seen[key] > 1 {
+			r.dups++
+		}
 		for _, c := range r.cors {
-			if c.Tile == key {
+			if c.Tile == key && (r.occMode == "" || (r.occMode == "first") == (r.seen[key] == 1)) {
 				d = corruptTile(r.tr, r.h, c, d)
 			}
 		}
@@ -171,14 +182,26 @@ type tileReadIn struct {
 
 // runTileRead performs one read through tiles and evaluates the observer predicates of C10.
 func runTileRead(in tileReadIn) (ok bool, returnedTrue bool, savedTrue bool, honestServed bool, rd *advReader, err error) {
+	return runTileReadMode(in, "", false)
+}
+
+// runTileReadMode: occMode as in advReader; warm: the same hash reader has answered the same request from honest
+// tiles before the corrupted tiles are served (a reader is an object with a lifetime, not a function)
+func runTileReadMode(in tileReadIn, occMode string, warm bool) (ok bool, returnedTrue bool, savedTrue bool, honestServed bool, rd *advReader, err error) {
 	tr := getTileTree(in.N)
-	rd = &advReader{tr: tr, h: in.H, cors: in.Cors}
+	rd = &advReader{tr: tr, h: in.H, cors: in.Cors, occMode: occMode}
 	indexes := make([]int64, len(in.Idx))
 	for i, c := range in.Idx {
 		indexes[i] = tlog.StoredHashIndex(int(c[0]), c[1])
 	}
 	tree := tlog.Tree{N: int64(in.N), Hash: tlog.Hash(tr.root())}
-	hashes, err := tlog.TileHashReader(tree, rd).ReadHashes(indexes)
+	thr := tlog.TileHashReader(tree, rd)
+	if warm {
+		rd.cors = nil
+		thr.ReadHashes(indexes)
+		rd.cors, rd.asked, rd.served, rd.saved, rd.seen, rd.dups = in.Cors, nil, nil, nil, nil, 0
+	}
+	hashes, err := thr.ReadHashes(indexes)
 	ok = err == nil
 	returnedTrue = true
 	if ok {
@@ -226,6 +249,24 @@ func (w *tilesWorld) Check(c *core.Case) ([]core.Violation, bool) {
 		}
 		if !savedTrue {
 			vs = append(vs, core.Violation{Sig: "tileread:saved-untrue", What: "a tile that is not the true tile was passed to SaveTiles: " + desc, Case: c})
+		}
+		// the same request to a reader that has answered it honestly before, and - if the code asks for one tile more
+		// than once - with only the first, or only the later, copies corrupted: the observer predicates are the same
+		if len(in.Cors) > 0 {
+			modes := [][2]any{{"", true}}
+			if rd.dups > 0 {
+				modes = append(modes, [2]any{"first", false}, [2]any{"later", false})
+			}
+			for _, m := range modes {
+				ok2, ret2, saved2, _, _, _ := runTileReadMode(in, m[0].(string), m[1].(bool))
+				how := fmt.Sprintf(" (reader warm=%v, corrupted copies: %q)", m[1], m[0])
+				if ok2 && !ret2 {
+					vs = append(vs, core.Violation{Sig: "tileread:returned-untrue", What: "read succeeded but returned a hash that is not the true stored hash: " + desc + how, Case: c})
+				}
+				if !saved2 {
+					vs = append(vs, core.Violation{Sig: "tileread:saved-untrue", What: "a tile that is not the true tile was passed to SaveTiles: " + desc + how, Case: c})
+				}
+			}
 		}
 		if len(c.Drift) > 0 {
 			var d struct {
